@@ -5,6 +5,7 @@ import (
 	"crypto/elliptic"
 	"crypto/sha512"
 	"fmt"
+	"strings"
 
 	"github.com/cloudflare/pat-go/ecdsa"
 	"github.com/cloudflare/pat-go/ed25519"
@@ -135,7 +136,7 @@ func (c c16) run(p *core.Plan, res *core.Result, spare int, poison byte, judge b
 		}
 		for _, wt := range global {
 			if wt.w.Changed() {
-				res.Violate("C16/earlier-result-changed/reused-decoder-encoding", fmt.Sprintf("%s changed during a later %s of session %d (first difference at byte %d)", wt.name, o.Op, s.ID, firstDiff(wt.w.Ref, wt.w.Snap)), -1)
+				res.Violate("C16/earlier-result-changed/"+watchClass(wt.name), fmt.Sprintf("%s, handed out earlier, changed during a later %s of session %d (first difference at byte %d)", wt.name, o.Op, s.ID, firstDiff(wt.w.Ref, wt.w.Snap)), -1)
 				wt.w.Snap = append([]byte(nil), wt.w.Ref...)
 			}
 		}
@@ -182,6 +183,9 @@ func (c c16) run(p *core.Plan, res *core.Result, spare int, poison byte, judge b
 					add(s, fmt.Sprintf("token[%d].Context", i), t.Context)
 					add(s, fmt.Sprintf("token[%d].KeyID", i), t.KeyID)
 					add(s, fmt.Sprintf("token[%d].Authenticator", i), t.Authenticator)
+					// tokens are also watched across the calls of OTHER sessions
+					global = append(global, watch{fmt.Sprintf("session %d token[%d].Authenticator", s.ID, i), arena.NewWatch("", t.Authenticator)},
+						watch{fmt.Sprintf("session %d token[%d].Nonce", s.ID, i), arena.NewWatch("", t.Nonce)})
 				}
 			} else {
 				res.Probe("finalize called again on the same request state")
@@ -414,4 +418,20 @@ func (c c16) hostileDecode(p *core.Plan, w *world.World, res *core.Result, spare
 			}
 		}
 	}
+}
+
+func watchClass(name string) string {
+	switch {
+	case strings.Contains(name, "reused type"):
+		return "reused-decoder-encoding"
+	case strings.Contains(name, "issuer response"):
+		return "issuer-response"
+	case strings.Contains(name, "token["):
+		return "token-of-another-session"
+	case strings.Contains(name, "origin id"):
+		return "issuer-origin-id"
+	case strings.Contains(name, "blinded request key"):
+		return "blinded-request-key"
+	}
+	return "other"
 }
